@@ -35,6 +35,9 @@ type Inst struct {
 	Doms  []string `json:"doms,omitempty"`
 	Lock  bool     `json:"lock"`
 	Trace bool     `json:"trace"`
+	// Panics: the instance (router / group router) has a recovery option and ends its life with a request whose
+	// handler panics and is recovered - nothing of that may be felt by any other instance
+	Panics bool `json:"panics,omitempty"`
 }
 
 type Case struct {
@@ -66,6 +69,7 @@ func genRegs(t *rapid.T, min, max int) []Reg {
 func genInst(t *rapid.T) Inst {
 	in := Inst{Kind: rapid.SampledFrom([]string{"router", "router", "hosts", "group"}).Draw(t, "ikind"), Lock: rapid.Bool().Draw(t, "ilock"), Trace: rapid.Bool().Draw(t, "itrace")}
 	in.Regs = genRegs(t, 3, 12)
+	in.Panics = rapid.IntRange(0, 2).Draw(t, "ipanics") == 0
 	in.Doms = rapid.SliceOfN(rapid.SampledFrom(domains), 1, 6).Draw(t, "doms")
 	return in
 }
@@ -230,11 +234,15 @@ func runInst(in Inst, tag string) *rig.Violation {
 	var r *rig.Router
 	var front http.Handler
 	var wantOnion []string
+	var extra []mux.Option
+	if in.Panics {
+		extra = append(extra, mux.WithStatusRecovery(500))
+	}
 	prefix := ""
 	if in.Kind == "group" {
 		g := env.NewGroup()
 		g.Use(env.NewMW("mg"))
-		own, _ := env.Options(rig.Opts{Lock: in.Lock, Trace: in.Trace})
+		own, _ := env.Options(rig.Opts{Lock: in.Lock, Trace: in.Trace, Extra: extra})
 		rr := g.New("r-"+tag, mux.NewPathVersion("", "v1"), own...)
 		r = &rig.Router{Router: rr, Env: env}
 		front, prefix = g, "/v1"
@@ -245,7 +253,7 @@ func runInst(in Inst, tag string) *rig.Violation {
 		g.Use(env.NewMW("mg2"))
 		wantOnion = []string{"mg2", "own", "mg"}
 	} else {
-		r = env.NewRouter("r-"+tag, rig.Opts{Lock: in.Lock, Trace: in.Trace})
+		r = env.NewRouter("r-"+tag, rig.Opts{Lock: in.Lock, Trace: in.Trace, Extra: extra})
 		front = r
 	}
 	m := ref.NewTable(in.Trace)
@@ -330,6 +338,13 @@ func runInst(in Inst, tag string) *rig.Violation {
 			if !ok {
 				return rig.Violf("instance-oracle", "%s: OPTIONS * Allow=%v lacks %s", tag, a, want)
 			}
+		}
+	}
+	if in.Panics {
+		r.Handle("/zz/panic/{why}", env.NewH(rig.Action{Op: "panic", V: tag}), nil, "GET")
+		o := rig.Serve(front, rig.Req{Method: "GET", Path: prefix + "/zz/panic/now"})
+		if o.Panicked || o.EffStatus() != 500 {
+			return rig.Violf("instance-oracle", "%s: the handler's panic must be answered by this router's WithStatusRecovery(500): escaped=%v (%v), status %d", tag, o.Panicked, o.PanicVal, o.EffStatus())
 		}
 	}
 	return nil
@@ -488,7 +503,7 @@ func TestChild(t *testing.T) {
 // ---- parent -----------------------------------------------------------------
 
 var stats = rig.NewStats("C07",
-	"rapid draws (a) a probe program for a brand-new router (0-5 registrations / removals, with or without WithTrace: OPTIONS *, HEAD / OPTIONS / GET / PATCH / HEAD per live pattern on handlers that alternately write a body or only WriteHeader(202) - status, Allow, Node().Methods(), body length and Content-Length observed -, Routes() after every step) and 1-4 unrelated instances (routers, Hosts, groups) with 3-12 registrations over eleven different method sets each; (b) 2-4 instance programs (router / Hosts / Group.New router, with and without their own lock) each built, mutated and served by its own goroutine; (c) a table, with or without WithLock, then 2-16 goroutines x 10-120 requests with per-request distinct parameter values whose handler reads its parameters, yields, and reads them again. Everything runs in one fresh -race child process per case: the probe runs first (pristine), after the sequential activity and after the concurrent parts, and the three renderings must be identical and satisfy the Allow model; every instance satisfies its own sequential oracle; every quiescent request sees exactly its own parameters and handler; no race report, no fatal error. Non-trivial: the activity used >= 3 distinct method sets, >= 2 instances ran in parallel and >= 2 goroutines served the quiescent router; distinct by hash of the case",
+	"rapid draws (a) a probe program for a brand-new router (0-5 registrations / removals, with or without WithTrace: OPTIONS *, HEAD / OPTIONS / GET / PATCH / HEAD per live pattern on handlers that alternately write a body or only WriteHeader(202) - status, Allow, Node().Methods(), body length and Content-Length observed -, Routes() after every step) and 1-4 unrelated instances (routers, Hosts, groups) with 3-12 registrations over eleven different method sets each; a third of the router / group instances have a recovery option and end with a request whose handler panics and is recovered; (b) 2-4 instance programs (router / Hosts / Group.New router, with and without their own lock) each built, mutated and served by its own goroutine; (c) a table, with or without WithLock, then 2-16 goroutines x 10-120 requests with per-request distinct parameter values whose handler reads its parameters, yields, and reads them again. Everything runs in one fresh -race child process per case: the probe runs first (pristine), after the sequential activity and after the concurrent parts, and the three renderings must be identical and satisfy the Allow model; every instance satisfies its own sequential oracle; every quiescent request sees exactly its own parameters and handler; no race report, no fatal error. Non-trivial: the activity used >= 3 distinct method sets, >= 2 instances ran in parallel and >= 2 goroutines served the quiescent router; distinct by hash of the case",
 	"interleavings are sampled by the Go scheduler under GOMAXPROCS 2/4/16",
 	"instances are used from one goroutine each: the property is about distinct instances, not about sharing one")
 
